@@ -62,7 +62,7 @@ def countOp (s : Step) (ops : List Step) : Nat := (ops.filter (· == s)).length
 
 /-- what the environment operations alone leave: the last one decides, validators run by default -/
 def envExpected (steps : List Step) : Bool :=
-  match (steps.filter (·.isEnv)).getLast? with
+  match (steps.filter (·.isSwitch)).getLast? with
   | some .validatorsOff => false
   | _ => true
 
